@@ -18,6 +18,24 @@ import (
 
 func init() {
 	props["C04"] = runC04
+	replayers["C04/crossread"] = func(v rt.Violation) string {
+		c := rt.ReplayCtx("C04")
+		defer c04Apply(0)()
+		c.Serial("replay", func(w *rt.W) {
+			s := rt.ArgUint(v, "size")
+			c04Apply(int(rt.ArgInt(v, "written_under")))
+			t, _ := size.Size(s).MarshalText()
+			j, _ := size.Size(s).MarshalJSON()
+			c04Apply(int(rt.ArgInt(v, "read_under")))
+			var a, b size.Size
+			e1, e2 := a.UnmarshalText(t), b.UnmarshalJSON(j)
+			w.Eval(2)
+			if e1 != nil || e2 != nil || uint64(a) != s || uint64(b) != s {
+				w.Fail("cross-switch-roundtrip", "crossread", v.Args, fmt.Sprint(uint64(a), " ", e1, " / ", uint64(b), " ", e2), fmt.Sprint(s), "text "+string(t)+" / JSON "+string(j))
+			}
+		})
+		return c.Report()
+	}
 	replayers["C04/roundtrip"] = func(v rt.Violation) string {
 		c := rt.ReplayCtx("C04")
 		cfg := int(rt.ArgInt(v, "switches"))
@@ -59,9 +77,16 @@ func c04Case(w *rt.W, s uint64, cfg int, containers bool) {
 	}
 	// a refused parse right before the round trips (whatever a refused input leaves behind must not
 	// leak into the next, valid one)
-	poison := []string{"12 kiB", "77XB", "99999999999999999999999", "16EiB", `{"value":31,"unit":"kib"}`, `"45 Kb"`, "-8", "3.5kB", "", `{"value":5`}[s%10]
+	poisons := []string{"12 kiB", "77XB", "99999999999999999999999", "16EiB", `{"value":31,"unit":"kib"}`, `"45 Kb"`, "-8", "3.5kB", "", `{"value":5`, "null", "true", "false", "[]", "{}", `{"value":null,"unit":"B"}`, `"null"`, " null "}
+	poison := poisons[s%uint64(len(poisons))]
 	if _, perr := size.DefaultParser(poison, size.DefaultRule); perr == nil {
 		fail("refused-input-accepted", "DefaultParser("+poison+")", "accepted", "an error")
+	}
+	if s%3 == 0 { // the same refusal through the method encoding/json calls
+		var pz size.Size
+		if perr := pz.UnmarshalJSON([]byte(poison)); perr == nil && poison != "null" && poison != " null " {
+			fail("refused-input-accepted", "UnmarshalJSON("+poison+")", "accepted", "an error")
+		}
 	}
 	// text
 	mt, err := sz.MarshalText()
@@ -346,6 +371,62 @@ func runC04(c *rt.Ctx) {
 			}
 		})
 	}
+	// what was written under one combination of the marshalling switches is read under every other one:
+	// the switches select what Marshal* writes, reading is "under the default rule" whatever they are
+	c.Serial("written-under-one-switch-set-read-under-another", func(w *rt.W) {
+		var vals []uint64
+		sizeValueSet(rt.NewRand(c.Seed, "C04/cross", 0), 40, func(s uint64) {
+			if len(vals) < 4000 && (s%7 == 0 || s < 5000 || s > 1<<60) {
+				vals = append(vals, s)
+			}
+		})
+		type written struct {
+			s        uint64
+			text, js []byte
+			doc      []byte
+		}
+		for wr := 0; wr < 8; wr++ {
+			c04Apply(wr)
+			ws := make([]written, 0, len(vals))
+			for _, s := range vals {
+				sz := size.Size(s)
+				t, _ := sz.MarshalText()
+				j, _ := sz.MarshalJSON()
+				d, _ := json.Marshal(map[string]any{"a": sz, "l": []size.Size{sz}})
+				ws = append(ws, written{s, t, j, d})
+			}
+			for rd := 0; rd < 8; rd++ {
+				if rd == wr {
+					continue
+				}
+				c04Apply(rd)
+				for _, x := range ws {
+					fail := func(path, got string) {
+						w.Fail("cross-switch-roundtrip", "crossread", rt.Args("size", fmt.Sprint(x.s), "written_under", wr, "read_under", rd, "path", path), got, fmt.Sprint(x.s), path+": a text written under one combination of the marshalling switches must read back under any other")
+					}
+					var a, b size.Size
+					if err := a.UnmarshalText(x.text); err != nil || uint64(a) != x.s {
+						fail("UnmarshalText("+string(x.text)+")", fmt.Sprint(uint64(a), " err=", err))
+					}
+					if err := b.UnmarshalJSON(x.js); err != nil || uint64(b) != x.s {
+						fail("UnmarshalJSON("+string(x.js)+")", fmt.Sprint(uint64(b), " err=", err))
+					}
+					var doc struct {
+						A size.Size   `json:"a"`
+						L []size.Size `json:"l"`
+					}
+					if err := json.Unmarshal(x.doc, &doc); err != nil || uint64(doc.A) != x.s || len(doc.L) != 1 || uint64(doc.L[0]) != x.s {
+						fail("json.Unmarshal("+string(x.doc)+")", fmt.Sprint(uint64(doc.A), " ", doc.L, " err=", err))
+					}
+					w.Eval(3)
+				}
+				w.ClassN("write-switches-x-read-switches", 1)
+			}
+		}
+		w.NT(int64(len(vals)) * 56)
+		c04Apply(0)
+	})
+	c.Require("write-switches-x-read-switches", 56)
 	coldStart(c, "C04", 140)
 	c.Exhaustive("all sizes below 2^20 x 8 switch combinations")
 	c.Require("stratified-set-under-switches", 8)
